@@ -209,7 +209,7 @@ fn spec_for(c: &PsoCase, iters: u32) -> Spec<RealP> {
     Spec {
         name: "real_pso",
         variant: format!("{:?}", c),
-        problem: Box::new(move || RealP::new(cc.dim, -1.0, 2.0, [FKind::Sphere, FKind::Shifted, FKind::Linear][cc.kind as usize], Instr::new())),
+        problem: Box::new(move || RealP::new(cc.dim, -1.0, 2.0, [FKind::Sphere, FKind::Shifted, FKind::Linear, FKind::Tiny][cc.kind as usize], Instr::new())),
         make: Box::new(move |cond| {
             let c = &c2;
             if c.assembly == 0 {
@@ -256,6 +256,9 @@ pub fn cases(thorough: bool) -> Vec<PsoCase> {
                             continue;
                         }
                         v.push(PsoCase { n, dim, start_w: sw, end_w: ew, c1, c2, v_max: vmax, kind: (n % 3) as u8, assembly });
+                        if assembly == 0 && sw == 0.9 && vmax == width {
+                            v.push(PsoCase { n, dim, start_w: sw, end_w: ew, c1, c2, v_max: vmax, kind: 3, assembly });
+                        }
                     }
                 }
             }
